@@ -218,6 +218,25 @@ def h_plates(ctx, cfg):
         _check_view(ctx, screen.get_plate(pid), screen, members, "get_plate")
         covered.extend(members)
     ctx.prove(sorted(covered) == list(range(R)), "plate views partition the screen")
+    # views that are Plate objects but span several plates (combine / concat / invert of plate views), materialised
+    if len(plates) >= 2:
+        sv = [p.selection_vector.tolist() for p in plates]
+        spans = [("first plate combined with the last", plates[0].combine(plates[-1]), [i for i in range(R) if sv[0][i] or sv[-1][i]]),
+                 ("concatenation of all plate views", data.ScreenSubset.concat(plates), list(range(R))),
+                 ("complement of the first plate", plates[0].invert(), [i for i in range(R) if not sv[0][i]])]
+        for what, view, members in spans:
+            _check_view(ctx, view, screen, members, what)
+            uniform = len({mask[i] for i in members if rows[i][5] == rows[members[0]][5]}) == 1
+            try:
+                m = view.to_screen()
+            except ValueError:
+                ctx.prove(False if uniform and len({(rows[i][5], mask[i]) for i in members}) == len({rows[i][5] for i in members}) else True,
+                          "to_screen of a view spanning several plates", key="to_screen refused a legal multi-plate view")
+                continue
+            ctx.prove(m.plate_names.tolist() == [rows[i][5] for i in members] and m.sample_names.tolist() == [rows[i][0] for i in members],
+                      "to_screen (%s): same plate names and sample names in the same order" % what, key="to_screen changed plate names of a multi-plate view")
+            ctx.prove(_eq_rows(ctx, m.observations.tolist(), [obs[i] for i in members]) and m.observation_mask.tolist() == [mask[i] for i in members],
+                      "to_screen (%s): same observation values and mask" % what)
     # whole-screen unique filter
     u = data.filter_dataset_to_unique_treatments(screen)
     sid, tid = screen.sample_ids.tolist(), screen.treatment_ids.tolist()
